@@ -75,3 +75,11 @@ B('C12', 'walker-depth-order', IDBB + 'entities/immutable_file.rs',
         .min_depth(1)
         .into_iter()
         .filter_entry(is_immutable)""", 'builder calls swapped')
+
+B('C13', 'streamer-skip-inline-condition', 'internal/cardano-node/mithril-cardano-node-chain/src/chain_scanner/chain_reader_block_streamer.rs',
+  """                let is_initial_rollback = self.last_polled_point.is_none()
+                    && rollback_slot_number == self.from.slot_number;
+                let block_streamer_next_action = if is_initial_rollback {""",
+  """                let block_streamer_next_action = if rollback_slot_number == self.from.slot_number
+                    && self.last_polled_point.is_none()
+                {""", 'same condition, operands swapped, no intermediate flag')
